@@ -8,7 +8,7 @@ import json
 import os
 from . import core, lsp, lspws
 
-ALPH = ["a", "b", " ", "é", "€", "😉", "\n", "\r\n", "x", ";"]
+ALPH = ["a", "b", " ", "é", "€", "😉", "\n", "\r\n", "x", ";", "\t"]
 
 
 def u16len(s):
